@@ -105,6 +105,17 @@ def program(r, non_ascii=False, max_records=5, names_non_ascii=False):
                         args[f] = val_dt(r, as_="dt") if f in gen.TIME_ATTRS else name(["x1", "x2"])
                 ex = extras(True)
             ops.append(["rec", t, kind, name(["r%d" % n[0]]) if ident else None, args, ex, "new_record", label])
+            if not ident and kind not in NOQUAL and kind not in BARE_ONLY and r.random() < 0.12:
+                # the same two records related twice by the same kind: once plainly, once with more to say (two statements, two relations)
+                n[0] += 1
+                args2 = {formals[0]: subj, formals[1]: obj}
+                ex2 = []
+                if plain:
+                    for f in formals[2:]:
+                        if r.random() < 0.5:
+                            args2[f] = val_dt(r, as_="dt") if f in gen.TIME_ATTRS else name(["x1", "x2"])
+                    ex2 = extras(True) or [[name(["tag"]), {"k": "str", "v": "the second statement"}]]
+                ops.append(["rec", t, kind, None, args2, ex2, "new_record", "R%d" % n[0]])
     return ops
 
 
